@@ -325,6 +325,65 @@ static std::string overshoot()
   return "O threads=" + std::to_string(total) + " max=1";
 }
 
+// A worker that finishes its task and leaves on its idle timeout BEFORE the submitter that created it has registered it
+// in _threads (the submitter is held at the yield point between the two): is the pool still able to run work?
+static std::string lateRegistration()
+{
+  std::atomic<int> held{0};
+  iora::verif::yield = [&](const char *tag)
+  {
+    if (std::string(tag) != "tp.spawn.created") return;
+    if (held.fetch_add(1) == 0) std::this_thread::sleep_for(ms(60));   // only the first spawn is held
+  };
+  std::atomic<int> ran{0};
+  std::size_t threads = 0;
+  bool secondRan = false;
+  {
+    ThreadPool pool(0, 1, ms(1), 16);
+    pool.enqueue([&] { ran++; });
+    // the first worker has run the task and timed out idle meanwhile; its creator has registered it afterwards
+    pool.enqueue([&] { ran++; });
+    for (int i = 0; i < 400 && ran.load() < 2; ++i) std::this_thread::sleep_for(ms(1));
+    secondRan = ran.load() >= 2;
+    iora::verif::yield = nullptr;
+    threads = pool.getTotalThreadCount();
+  }
+  return std::string("R second-task-ran=") + (secondRan ? "1" : "0") + " ran-before-destruction=" + std::to_string(secondRan ? 2 : 1);
+}
+
+// Submissions timed onto the idle timeout of the only worker: ThreadPool(0, 1, 1 ms).  Every accepted task must run
+// although its submission may fall exactly between the worker's decision to leave and its removal from _threads
+// (it then has to be run by that worker or by a replacement).  Each task is awaited before the next submission, so
+// a later submission cannot rescue a stranded one.
+static std::string idleExitRace(int lanes, int perLane)
+{
+  std::atomic<int> stuck{0}, accepted{0};
+  std::vector<std::thread> th;
+  for (int l = 0; l < lanes; ++l)
+    th.emplace_back([&, l]
+    {
+      ThreadPool pool(0, 1, ms(1), 16);
+      std::uint64_t x = 88172645463325252ull + static_cast<std::uint64_t>(l) * 7919;
+      for (int i = 0; i < perLane; ++i)
+      {
+        x ^= x << 13; x ^= x >> 7; x ^= x << 17;
+        // around one idle timeout after the previous task finished, +/- 300 us
+        std::this_thread::sleep_for(std::chrono::microseconds(700 + static_cast<long>(x % 600)));
+        auto f = pool.enqueueWithResult([] { return 1; });
+        accepted++;
+        // stranded, not merely slow: nothing else is submitted meanwhile, so a task that is not ready after this long
+        // has no worker that will ever take it (a loaded machine delays a worker's start, it does not cancel it)
+        if (f.wait_for(ms(400)) != std::future_status::ready && f.wait_for(ms(4000)) != std::future_status::ready)
+        {
+          stuck++;
+          break;
+        }
+      }
+    });
+  for (auto &t : th) t.join();
+  return "I stuck=" + std::to_string(stuck.load());
+}
+
 int main(int argc, char **argv)
 {
   if (argc < 3) return 2;
@@ -342,6 +401,8 @@ int main(int argc, char **argv)
       if (p[0] == "S") r = scenario(p[1], split(p[2], ';'));
       else if (p[0] == "X") r = stress(std::stoi(p[1]), std::stoi(p[2]), std::stoul(p[3]), std::stoul(p[4]), std::stoul(p[5]));
       else if (p[0] == "O") r = overshoot();
+      else if (p[0] == "R") r = lateRegistration();
+      else if (p[0] == "I") r = idleExitRace(std::stoi(p[1]), std::stoi(p[2]));
       else if (p[0] == "N") r = neverRefuse(std::stoi(p[1]), std::stoi(p[2]));
       else if (p[0] == "Z") r = raceShutdown(std::stoi(p[1]), std::stoi(p[2]), std::stoul(p[3]), std::stoul(p[4]), p[5]);
       else if (p[0] == "Y") r = destroyWithBacklog(std::stoi(p[1]), std::stoul(p[2]));
